@@ -7,7 +7,8 @@
     symlink targets, entry position, [inv_b] of the copy), not proved.  What is
     proved is what makes "the whole tree" follow from that contract. *)
 Require Import AT.Model.Base AT.Model.Heap AT.Model.Pickle AT.Spec.MutSpec.
-Require AT.Proofs.PickleProofs AT.Proofs.MutHistory AT.Proofs.CopyIso.
+Require Import AT.Model.Rose AT.Model.Abs AT.Spec.IterSpec.
+Require AT.Proofs.PickleProofs AT.Proofs.MutHistory AT.Proofs.CopyIso AT.Proofs.CopyTree AT.Proofs.Naturality.
 Import AT.Proofs.PickleProofs.
 
 (** in a consistent forest every node of the entry node's tree is reachable
@@ -40,6 +41,32 @@ Theorem C19_isomorphic_copy_consistent : forall (h h' : heap) (dom : list id) (r
   Inv h'.
 Proof. exact AT.Proofs.CopyIso.copy_inv. Qed.
 Print Assumptions C19_isomorphic_copy_consistent.
+
+(** ... and it is isomorphic to the original as a tree, at every depth: under
+    the same clauses the unfolding of the copy below the image of any copied
+    node is the renamed unfolding of the original below that node (same
+    shape, same child order everywhere), so every traversal of the copy is
+    the renamed traversal of the original *)
+Theorem C19_copy_isomorphic_tree : forall (h h' : heap) (dom : list id) (ren : id -> id),
+  Inv h ->
+  (forall x p, In x dom -> parent h x = Some p -> In p dom) ->
+  (forall x c, In x dom -> In c (children h x) -> In c dom) ->
+  (forall x, In x dom -> ren x < length h') ->
+  (forall x y, In x dom -> In y dom -> ren x = ren y -> x = y) ->
+  (forall y, y < length h' -> exists x, In x dom /\ ren x = y) ->
+  (forall x, In x dom -> parent h' (ren x) = option_map ren (parent h x)) ->
+  (forall x, In x dom -> children h' (ren x) = map ren (children h x)) ->
+  forall x, In x dom ->
+    tree_of h' (ren x) = AT.Proofs.Naturality.map_tree ren (tree_of h x) /\
+    preorder (tree_of h' (ren x)) = map ren (preorder (tree_of h x)) /\
+    postorder (tree_of h' (ren x)) = map ren (postorder (tree_of h x)).
+Proof.
+  intros h h' dom ren I cp cc rb ri ro sp sc x Hx. split; [|split].
+  - exact (AT.Proofs.CopyTree.tree_of_copy h h' dom ren I cp cc rb ri ro sp sc x Hx).
+  - exact (AT.Proofs.CopyTree.preorder_copy h h' dom ren I cp cc rb ri ro sp sc x Hx).
+  - exact (AT.Proofs.CopyTree.postorder_copy h h' dom ren I cp cc rb ri ro sp sc x Hx).
+Qed.
+Print Assumptions C19_copy_isomorphic_tree.
 
 (** the boolean evaluated on the copy's link maps is the C01 invariant *)
 Theorem C19_copy_consistency_check_sound : forall h, inv_b h = true -> Inv h.
